@@ -25,16 +25,16 @@ use std::net::SocketAddr;
 
 pub struct C14;
 
-pub const BEHAVIOURS: u64 = 5;
+pub const BEHAVIOURS: u64 = 6;
 
 #[derive(Clone)]
 pub enum Blueprint {
-    Valve { st: ValveState, goldsrc: bool, quirk: bool, enc: [vm::KindEnc; 3], players_silent: bool },
+    Valve { st: ValveState, goldsrc: bool, quirk: bool, enc: [vm::KindEnc; 3], players_silent: bool, rules_silent: bool },
     Gs1(Vec<Vec<u8>>),
     Gs2(Gs2State),
     Gs3(Gs3State, Vec<Vec<u8>>),
     Quake(QuakeState),
-    Unreal2 { info: Vec<u8>, rules: Vec<Vec<u8>>, players: Vec<Vec<u8>>, players_silent: bool },
+    Unreal2 { info: Vec<u8>, rules: Vec<Vec<u8>>, players: Vec<Vec<u8>>, players_silent: bool, rules_silent: bool },
     Mc(McHost),
     Ffow(FfowState),
     Savage2(Savage2State),
@@ -72,7 +72,7 @@ pub fn blueprint(game: &Game, behaviour: u64, t: &mut Tape) -> Blueprint {
             st.fit(goldsrc);
             let quirk = super::c02::no_size_quirk(engine, st.protocol);
             let enc = [vm::gen_enc(t, goldsrc, !quirk), vm::gen_enc(t, goldsrc, true), vm::gen_enc(t, goldsrc, true)];
-            Blueprint::Valve { st, goldsrc, quirk, enc, players_silent: behaviour == 3 }
+            Blueprint::Valve { st, goldsrc, quirk, enc, players_silent: behaviour == 3, rules_silent: behaviour == 5 }
         }
         Protocol::Gamespy(GameSpyVersion::One) => {
             let st = Gs1State::generate(t, 8);
@@ -103,7 +103,7 @@ pub fn blueprint(game: &Game, behaviour: u64, t: &mut Tape) -> Blueprint {
             st.num_players = st.players.len() as u32;
             let r = st.rules_datagrams(2, t);
             let p = st.players_datagrams(2, t);
-            Blueprint::Unreal2 { info: st.info_datagram(), rules: r, players: p, players_silent: behaviour == 3 }
+            Blueprint::Unreal2 { info: st.info_datagram(), rules: r, players: p, players_silent: behaviour == 3, rules_silent: behaviour == 5 }
         }
         Protocol::PROPRIETARY(pp) => {
             match pp {
@@ -111,7 +111,7 @@ pub fn blueprint(game: &Game, behaviour: u64, t: &mut Tape) -> Blueprint {
                     let mut st = ValveState::generate(t, true, false, Some(if behaviour == 2 { 2407 } else { 2400 }), 8, 8);
                     st.fit(false);
                     let enc = [vm::gen_enc(t, false, true), vm::gen_enc(t, false, true), vm::gen_enc(t, false, true)];
-                    Blueprint::Valve { st, goldsrc: false, quirk: false, enc, players_silent: behaviour == 3 }
+                    Blueprint::Valve { st, goldsrc: false, quirk: false, enc, players_silent: behaviour == 3, rules_silent: behaviour == 5 }
                 }
                 ProprietaryProtocol::FFOW => Blueprint::Ffow(FfowState::generate(t)),
                 ProprietaryProtocol::JC2M => {
@@ -149,7 +149,7 @@ pub fn world_from(bp: &Blueprint, ports: &HostPorts, rt_seed: u64) -> World {
     let addr = SocketAddr::new(SERVER_IP, ports.main);
     match bp {
         Blueprint::Nothing => {}
-        Blueprint::Valve { st, goldsrc, quirk, enc, players_silent } => {
+        Blueprint::Valve { st, goldsrc, quirk, enc, players_silent, rules_silent } => {
             let mut s = ValveServer::new(st.clone());
             s.goldsrc_transport = *goldsrc;
             s.split_no_size = *quirk;
@@ -158,6 +158,9 @@ pub fn world_from(bp: &Blueprint, ports: &HostPorts, rt_seed: u64) -> World {
             }
             if *players_silent {
                 s.outcomes[1] = vec![vm::Outcome::Silent];
+            }
+            if *rules_silent {
+                s.outcomes[2] = vec![vm::Outcome::Silent];
             }
             w.add_server(addr, Proto::Udp, Box::new(s));
         }
@@ -173,10 +176,13 @@ pub fn world_from(bp: &Blueprint, ports: &HostPorts, rt_seed: u64) -> World {
         Blueprint::Quake(st) => {
             w.add_server(addr, Proto::Udp, Box::new(QuakeServer { st: st.clone(), outcomes: Vec::new(), attempts: 0, requests: Vec::new() }));
         }
-        Blueprint::Unreal2 { info, rules, players, players_silent } => {
+        Blueprint::Unreal2 { info, rules, players, players_silent, rules_silent } => {
             let mut s = Unreal2Server::new(info.clone(), rules.clone(), players.clone());
             if *players_silent {
                 s.outcomes[2] = vec![crate::models::gamespy::Outcome::Silent];
+            }
+            if *rules_silent {
+                s.outcomes[1] = vec![crate::models::gamespy::Outcome::Silent];
             }
             w.add_server(addr, Proto::Udp, Box::new(s));
         }
@@ -436,7 +442,7 @@ impl Prop for C14 {
         out.nontrivial = true;
         out.distinct_key = crate::rng::mix(&[out.log_hash, idx % (ids.len() as u64 * BEHAVIOURS * 2)]);
         if detail {
-            let bname = ["valid (main app id)", "valid (dedicated app id)", "valid (foreign app id)", "partial (players section silent)", "silence"][behaviour as usize];
+            let bname = ["valid (main app id)", "valid (dedicated app id)", "valid (foreign app id)", "partial (players section silent)", "silence", "partial (rules section silent)"][behaviour as usize];
             out.sample = Some(json!({"game": id, "behaviour": bname,
                 "port": port, "paths": sample_paths}));
             out.schedule = ra.world.render_history(60);
@@ -445,7 +451,7 @@ impl Prop for C14 {
     }
 
     fn rule(&self) -> String {
-        "case index enumerates every entry of the definitions table x 5 server behaviours (valid with the main / dedicated / a foreign app id, partial: players section silent, total silence) x port given / omitted; the tape draws the server state and transport; each case builds three identical worlds (same state, same runtime seed) and runs (a) query_with_timeout_and_extra_settings, (b) the game's dedicated module where one exists, (c) the protocol's own query function with the definition's parameters; oracle: same destination port and request bytes in the same order, same outcome class / error kind, equal common view and protocol-specific value (per-game Valve responses through the library's conversion); distinct = (cell, event-log hash)".to_string()
+        "case index enumerates every entry of the definitions table x 6 server behaviours (valid with the main / dedicated / a foreign app id, partial: players section silent, partial: rules section silent, total silence) x port given / omitted; the tape draws the server state and transport; each case builds three identical worlds (same state, same runtime seed) and runs (a) query_with_timeout_and_extra_settings, (b) the game's dedicated module where one exists, (c) the protocol's own query function with the definition's parameters; oracle: same destination port and request bytes in the same order, same outcome class / error kind, equal common view and protocol-specific value (per-game Valve responses through the library's conversion); distinct = (cell, event-log hash)".to_string()
     }
 
     fn assumptions(&self) -> Vec<String> {
